@@ -68,6 +68,10 @@ type c06Script struct {
 	sendErr string
 	hdone   bool // the handler has returned (what is marshalled afterwards is the error body)
 	done    chan struct{}
+	// a bidi handler on a well-formed stream replies while it is still receiving (one scripted reply
+	// after each message, the rest after the end of the stream): the client's view is the same
+	interleave bool
+	sentOut    int
 }
 
 type c06Env struct {
@@ -205,6 +209,17 @@ func c06Setup(limit int) *c06Env {
 			default:
 				s.hseq = append(s.hseq, "P")
 			}
+			if s.interleave && s.sentOut < len(s.out) && outd.FullName() != "google.api.HttpBody" {
+				rm := dynamicpb.NewMessage(outd)
+				if t := s.out[s.sentOut]; len(t) > 0 {
+					rm.Set(outd.Fields().ByName("text"), protoreflect.ValueOfString(string(t)))
+				}
+				s.sentOut++
+				if err := ss.SendMsg(rm); err != nil {
+					s.sendErr = c06Class(err)
+					return err
+				}
+			}
 		}
 		if s.end == "" {
 			s.end = c06Class(rerr)
@@ -212,7 +227,7 @@ func c06Setup(limit int) *c06Env {
 		if rerr != nil && rerr != io.EOF {
 			return rerr
 		}
-		for _, t := range s.out {
+		for _, t := range s.out[s.sentOut:] {
 			m := dynamicpb.NewMessage(outd)
 			if outd.FullName() == "google.api.HttpBody" {
 				m.Set(outd.Fields().ByName("content_type"), protoreflect.ValueOfString("application/x-c06"))
@@ -292,6 +307,7 @@ func c06Run(o *out, input string) {
 	body, sched, eofwd, outs, code := unhx(f[7]), unints(f[8]), f[9] == "1", unhxs(f[10]), atoi(f[11])
 	e := c06Setup(limit)
 	s := &c06Script{recvN: -1, out: outs, code: code, shape: shape}
+	s.interleave = shape == "bidi" && len(f) > 12 && strings.HasPrefix(f[12], "=")
 	wire := body
 	if tr == "http" && gz {
 		wire = c06Gzip(body)
@@ -687,6 +703,19 @@ func c06Gen(o *out, r *rng, tier string) {
 				run(c, "trunc")
 			}
 		}
+		// several short messages delivered by one read, long replies sent between the receives
+		{
+			frames := [][]byte{c06Msg(codec, "m1"), c06Msg(codec, "m2"), c06Msg(codec, "m3"), c06Msg(codec, "m4")}
+			L := writeAll(codec, frames)
+			outs := [][]byte{[]byte(c06Texts(300, 7)), []byte(c06Texts(500, 8)), []byte(c06Texts(40, 9)), []byte(c06Texts(900, 10))}
+			c := c06Case{tr: "http", shape: "bidi", codec: codec, limit: 64, cl: "u", body: L, out: outs, sent: sentOf(frames)}
+			c.sched, c.eofwd = nil, false
+			run(c, "interleaved")
+			c.sched, c.eofwd = []int{len(L) - 1, 1}, true
+			run(c, "interleaved")
+			c.cl = "k"
+			run(c, "interleaved")
+		}
 		// messages at and around the limit
 		for _, lim := range []int{16, 24, 40} {
 			for _, d := range []int{-1, 0, 1} {
@@ -995,9 +1024,9 @@ func c06Gen(o *out, r *rng, tier string) {
 			texts = append(texts, []byte(c06Texts((j*2+i)%4, byte(i+j))))
 		}
 		shape := []string{"bidi", "client"}[i%2]
-		wsrun(shape, texts, "c1000", -1, nil, 0)                       // the client ends the stream
+		wsrun(shape, texts, "c1000", -1, nil, 0)                           // the client ends the stream
 		wsrun("bidi", texts, "none", n, outsOf(i%5), []int{0, 3, 13}[i%3]) // the server ends the call
-		wsrun(shape, texts, "abort", -1, nil, 0)                       // the connection breaks
+		wsrun(shape, texts, "abort", -1, nil, 0)                           // the connection breaks
 		if i%3 == 0 {
 			wsrun(shape, texts, "c1001", -1, nil, 0)
 			wsrun(shape, texts, "c0", -1, nil, 0)
